@@ -682,10 +682,63 @@ func clientvCmd(out *cq.Out, seed uint64, tier string) {
 				}(g)
 			}
 			wg.Wait()
+			// a long-lived client asked for many version pairs, one after the other: every answer is the proof for the pair
+			// asked (pairs whose decimal forms run together alike - (1,112) and (11,12) - included) and verifies
+			if sp.n >= 113 {
+				pairs := [][2]uint64{{1, 112}, {11, 12}, {12, 13}, {1, 213}, {10, 11}, {1, 1011}, {2, 113}, {21, 13}, {1, 12}, {11, 2}, {111, 112}, {11, 112}, {0, 112}, {0, 12}}
+				for k := 0; k < 40; k++ {
+					a := uint64((k*37 + 5) % sp.n)
+					pairs = append(pairs, [2]uint64{a, a + uint64((k*11)%(sp.n-int(a)))})
+				}
+				bad, asked := 0, 0
+				first := ""
+				for round := 0; round < 2; round++ {
+					for _, pr := range pairs {
+						if pr[0] > pr[1] || pr[1] >= uint64(sp.n) {
+							continue
+						}
+						asked++
+						okp := false
+						what := ""
+						pn, msg := cq.Catch(func() {
+							ip, err := c.Incremental(pr[0], pr[1])
+							if err != nil || ip == nil {
+								what = fmt.Sprintf("error %v", err)
+								return
+							}
+							if ip.Start != pr[0] || ip.End != pr[1] {
+								what = fmt.Sprintf("the client returned a proof for (%d,%d)", ip.Start, ip.End)
+								return
+							}
+							okp = ip.Verify(lg.snaps[pr[0]], lg.snaps[pr[1]])
+							if !okp {
+								what = "the returned proof does not verify"
+							}
+						})
+						if pn {
+							what = "panic: " + msg
+						}
+						if !okp {
+							bad++
+							if first == "" {
+								first = fmt.Sprintf("pair (%d,%d): %s", pr[0], pr[1], what)
+							}
+						}
+					}
+				}
+				out.Count("one_client_many_pairs", asked)
+				if bad > 0 {
+					desc := map[string]interface{}{"seed": seed, "log": li, "events": sp.n}
+					out.Violate("C13:genuine-answer-lost-on-the-wire:one-client-many-pairs", fmt.Sprintf("one client asked for %d version pairs of a %d-event log in a row: %d answers were not the genuine proof for the pair asked (first: %.200s)", asked, sp.n, bad, first), desc)
+					out.Violate("C03:honest-answer-rejected:one-client-many-pairs", fmt.Sprintf("one client asked for %d version pairs of a %d-event log in a row: %d answers were not the genuine proof for the pair asked (first: %.200s)", asked, sp.n, bad, first), desc)
+				}
+			}
 			c.Close()
 			out.Case(fmt.Sprintf("shared-client:%d", li), true)
 			out.Count("shared_client_calls", calls)
 			if failures > 0 || panics > 0 {
+				out.Violate("C03:honest-answer-rejected:shared-client", fmt.Sprintf("8 goroutines fetched and verified genuine answers (membership and consistency proofs) through one client at the same time: %d of %d were rejected and %d panicked (first: %.200s); one at a time they all verify", failures, calls, panics, firstFail),
+					map[string]interface{}{"seed": seed, "log": li, "goroutines": 8})
 				out.Violate("C13:genuine-answer-lost-on-the-wire:shared-client", fmt.Sprintf("8 goroutines fetched and verified genuine answers through one client at the same time: %d of %d were rejected and %d panicked (first: %.200s); one at a time they all verify", failures, calls, panics, firstFail),
 					map[string]interface{}{"seed": seed, "log": li, "goroutines": 8})
 				out.Violate("C01:honest-answer-rejected:shared-client", fmt.Sprintf("8 goroutines fetched and verified genuine answers through one client at the same time: %d of %d were rejected and %d panicked (first: %.200s)", failures, calls, panics, firstFail),
